@@ -14,8 +14,9 @@ import (
 )
 
 type commandExecutor struct {
-	cmd  *exec.Cmd
-	lock sync.Mutex
+	cmd     *exec.Cmd
+	lock    sync.Mutex
+	pending os.Signal
 }
 
 func newCommand(ctx context.Context, step dag.Step) (Executor, error) {
@@ -50,6 +51,11 @@ func newCommand(ctx context.Context, step dag.Step) (Executor, error) {
 func (e *commandExecutor) Run() error {
 	e.lock.Lock()
 	err := e.cmd.Start()
+	if err == nil && e.pending != nil {
+		// a signal arrived before the process existed: deliver it now
+		_ = syscall.Kill(-e.cmd.Process.Pid, e.pending.(syscall.Signal))
+		e.pending = nil
+	}
 	e.lock.Unlock()
 	if err != nil {
 		return err
@@ -68,7 +74,12 @@ func (e *commandExecutor) SetStderr(out io.Writer) {
 func (e *commandExecutor) Kill(sig os.Signal) error {
 	e.lock.Lock()
 	defer e.lock.Unlock()
-	if e.cmd == nil || e.cmd.Process == nil {
+	if e.cmd == nil {
+		return nil
+	}
+	if e.cmd.Process == nil {
+		// not started yet: remember the signal for Run
+		e.pending = sig
 		return nil
 	}
 	return syscall.Kill(-e.cmd.Process.Pid, sig.(syscall.Signal))
